@@ -188,4 +188,54 @@ theorem codonThread_chars (p nt b r : Seq) (h : codonThread p nt = some (b, r)) 
           · exact Or.inl e'
           · exact Or.inr (Or.inr (Or.inr (Or.inr e')))
 
+/-- the loop succeeds exactly when there are three nucleotides per residue, and leaves the others -/
+theorem codonThread_some (p nt : Seq) (h : 3 * (ungap p).length ≤ nt.length) :
+    ∃ b, codonThread p nt = some (b, nt.drop (3 * (ungap p).length)) := by
+  induction p generalizing nt with
+  | nil => exact ⟨[], by simp [codonThread, ungap]⟩
+  | cons a t ih =>
+    by_cases ha : (a == GAP) = true
+    · have hae : a = GAP := by simpa using ha
+      have hu : ungap (a :: t) = ungap t := by
+        unfold ungap; rw [List.filter_cons]; simp [hae]
+      rw [hu] at h ⊢
+      obtain ⟨b, hb⟩ := ih nt h
+      exact ⟨GAP :: GAP :: GAP :: b, by simp [codonThread, ha, hb]⟩
+    · have hne : (a != GAP) = true := by simpa using ha
+      have hu : ungap (a :: t) = a :: ungap t := by
+        unfold ungap; rw [List.filter_cons]; simp [hne]
+      rw [hu] at h ⊢
+      simp only [List.length_cons] at h ⊢
+      match nt, h with
+      | [], h => simp at h
+      | [_], h => simp at h; omega
+      | [_, _], h => simp at h; omega
+      | x :: y :: z :: nt', h =>
+        obtain ⟨b, hb⟩ := ih nt' (by simp at h; omega)
+        refine ⟨x :: y :: z :: b, ?_⟩
+        have e : 3 * ((ungap t).length + 1) = 3 * (ungap t).length + 1 + 1 + 1 := by omega
+        simp [codonThread, ha, hb, e]
+
+theorem codonThread_none (p nt : Seq) (h : nt.length < 3 * (ungap p).length) : codonThread p nt = none := by
+  induction p generalizing nt with
+  | nil => simp [ungap] at h
+  | cons a t ih =>
+    by_cases ha : (a == GAP) = true
+    · have hae : a = GAP := by simpa using ha
+      have hu : ungap (a :: t) = ungap t := by
+        unfold ungap; rw [List.filter_cons]; simp [hae]
+      rw [hu] at h
+      simp [codonThread, ha, ih nt h]
+    · have hne : (a != GAP) = true := by simpa using ha
+      have hu : ungap (a :: t) = a :: ungap t := by
+        unfold ungap; rw [List.filter_cons]; simp [hne]
+      rw [hu] at h
+      simp only [List.length_cons] at h
+      match nt, h with
+      | [], _ => simp [codonThread, ha]
+      | [_], _ => simp [codonThread, ha]
+      | [_, _], _ => simp [codonThread, ha]
+      | x :: y :: z :: nt', h =>
+        simp [codonThread, ha, ih nt' (by simp at h; omega)]
+
 end Gv.Proofs.TranslateAlign
